@@ -36,14 +36,21 @@ impl Outcome {
     }
 }
 
+thread_local! {
+    /// source location of the last panic on this thread (filled by the panic hook)
+    pub static LAST_PANIC_LOC: std::cell::RefCell<String> = const { std::cell::RefCell::new(String::new()) };
+}
+
 pub fn panic_msg(e: Box<dyn std::any::Any + Send>) -> String {
-    if let Some(s) = e.downcast_ref::<&str>() {
+    let m = if let Some(s) = e.downcast_ref::<&str>() {
         s.to_string()
     } else if let Some(s) = e.downcast_ref::<String>() {
         s.clone()
     } else {
         "panic".to_string()
-    }
+    };
+    let loc = LAST_PANIC_LOC.with(|l| l.borrow().clone());
+    format!("{m} [at {loc}]")
 }
 
 /// TLC's Json module cannot read `null`: trace events carry the string "none" instead
@@ -144,7 +151,10 @@ fn replay(kind: &str, vecs: &str, out: &str, threads: usize) -> anyhow::Result<(
 
 fn main() {
     // panics of code under test are data; keep stderr quiet
-    std::panic::set_hook(Box::new(|_| {}));
+    std::panic::set_hook(Box::new(|info| {
+        let loc = info.location().map(|l| format!("{}:{}", l.file(), l.line())).unwrap_or_default();
+        LAST_PANIC_LOC.with(|l| *l.borrow_mut() = loc);
+    }));
     let args: Vec<String> = std::env::args().collect();
     let threads = args
         .iter()
